@@ -363,7 +363,7 @@ func tierConfig(p Property, tier string) tierCfg {
 		c.wallCap = time.Duration(s) * time.Second
 	}
 	if p.ID() == "C03" {
-		c.stall = 15 * time.Second
+		c.stall = 30 * time.Second
 	}
 	return c
 }
